@@ -1,4 +1,5 @@
 import Dyce.EqProofs
+import Dyce.ShorthandProofs
 /-!
 # C05 — Equality, hashing, reduction and construction agree on 'same distribution'
 
@@ -23,6 +24,7 @@ import Dyce.EqProofs
 | construction: any order ⇒ identical histogram | `C05_ctor_perm` |
 | ascending, counts added, total = Σ counts | `C05_ctor_sorted`, `C05_ctor_count`, `C05_ctor_total` |
 | negative counts rejected | `C05_ctor_negative` |
+| the `H(n)` shorthand: faces `1..n` (`n..-1` for negative `n`, none for 0) once each, ascending, total `|n|`, identical to the histogram built from those faces given explicitly in any order | `C05_shorthand_faces`, `C05_shorthand_sorted`, `C05_shorthand_total`, `C05_shorthand_same_as_explicit` |
 -/
 namespace Dyce
 open List
@@ -96,6 +98,18 @@ theorem C05_ctor_negative (items : List (α × Int)) :
       have := hall e he
       simp at hneg; omega
     rw [if_neg this]
+
+theorem C05_shorthand_faces (n z : Int) (c : Nat) :
+    (z, c) ∈ ofInt n ↔ c = 1 ∧ ((1 ≤ z ∧ z ≤ n) ∨ (n ≤ z ∧ z ≤ -1)) := mem_ofInt n z c
+
+theorem C05_shorthand_sorted (n : Int) : Asc leZ (ofInt n) := asc_ofInt n
+
+theorem C05_shorthand_total (n : Int) : total (ofInt n) = n.natAbs := total_ofInt n
+
+theorem C05_shorthand_same_as_explicit (n : Int) {l : List (Int × Nat)} (hp : l ~ ofInt n) :
+    ofItems leZ l = ofInt n := ofItems_perm_ofInt n hp
+
+example : ofInt 3 = [(1, 1), (2, 1), (3, 1)] ∧ ofInt (-2) = [(-2, 1), (-1, 1)] ∧ ofInt 0 = [] := by decide
 
 /-! non-vacuity: a scaled, zero-padded copy is `SameDist` -/
 example : SameDist ([(1, 1), (2, 3)] : Hist Int) [(0, 0), (1, 2), (2, 6)] := by
